@@ -208,7 +208,7 @@ func (x *Exec) registerFacts(st *State, t *Term, guard *Term, depth int) {
 		f := &qfact{bv: bv, body: body, guard: guard, sorts: indexSorts(body, bv), reads: factReads(body, bv)}
 		x.qfacts = append(x.qfacts, f)
 		if os.Getenv("GOVC_DEBUG") != "" {
-			fmt.Fprintf(os.Stderr, "DEBUG register fact#%d sorts=%v body=%s\n", body.id, f.sorts, truncate(body.String(), 300))
+			fmt.Fprintf(os.Stderr, "DEBUG register fact#%d sorts=%v body=%s\n", body.id, f.sorts, body.StringN(300))
 		}
 		for _, e := range x.interest {
 			x.instantiate(st, f, e, depth)
@@ -295,6 +295,9 @@ func (x *Exec) instantiateAbs(st *State, f *qfact, a absRead, depth int) {
 
 func (x *Exec) instantiateF(st *State, f *qfact, e *Term, depth int, force bool) {
 	if x.ninst >= maxInstances || e.sort != f.bv.sort || f.n >= maxPerFact {
+		if os.Getenv("GOVC_DEBUG") != "" {
+			fmt.Fprintf(os.Stderr, "DEBUG skip fact#%d at %s: ninst=%d f.n=%d\n", f.body.id, e.StringN(40), x.ninst, f.n)
+		}
 		return
 	}
 	// relevance: the term must have been used as an index into an array of a sort the fact talks about
@@ -309,15 +312,18 @@ func (x *Exec) instantiateF(st *State, f *qfact, e *Term, depth int, force bool)
 			return
 		}
 	}
-	key := [2]int{f.body.id*7919 + f.guard.id, e.id}
-	if x.qseen[key] {
+	key := [3]int{f.body.id, f.guard.id, e.id}
+	if x.instSeen == nil {
+		x.instSeen = map[[3]int]bool{}
+	}
+	if x.instSeen[key] {
 		return
 	}
-	x.qseen[key] = true
+	x.instSeen[key] = true
 	x.ninst++
 	f.n++
 	if os.Getenv("GOVC_DEBUG") != "" {
-		fmt.Fprintf(os.Stderr, "DEBUG instantiate fact#%d at %s\n", f.body.id, truncate(e.String(), 60))
+		fmt.Fprintf(os.Stderr, "DEBUG instantiate fact#%d at %s\n", f.body.id, e.StringN(60))
 	}
 	inst := substTerm(f.body, map[int]*Term{f.bv.id: e})
 	x.ctx.facts = append(x.ctx.facts, Implies(f.guard, inst))
@@ -543,7 +549,7 @@ func (x *Exec) skolemize(st *State, g *Term, depth int) *Term {
 		alts := []*Term{g}
 		if os.Getenv("GOVC_DEBUG") != "" {
 			for _, e := range cands {
-				fmt.Fprintf(os.Stderr, "DEBUG exists-goal candidate %s\n", truncate(e.String(), 200))
+				fmt.Fprintf(os.Stderr, "DEBUG exists-goal candidate %s\n", e.StringN(200))
 			}
 		}
 		for _, e := range cands {
